@@ -1203,3 +1203,62 @@ Print Assumptions bchan_capacity.
 Print Assumptions bchan_fifo.
 Print Assumptions bchan_received_was_sent.
 Print Assumptions bchan_no_duplicates.
+
+(* ------------------------------------------------------------------ *)
+(* two more exported facts (for the blocking / wake-up argument) *)
+
+(* the slot the receiver would read is NULL when the channel is empty *)
+Lemma bchan_empty_slot_zero :
+  forall (size : Z) (w : nat) (progs : list (list cop)) (s : st),
+  0 < size -> bchan_progs_ok w progs -> reachable M (init size progs) s ->
+  let high := cell (mem s) c_high in
+  let low := cell (mem s) c_low in
+  (high <= low -> cell (mem s) (c_buf (bidx size low)) = 0) /\
+  (cell (mem s) (c_buf (bidx size low)) <> 0 -> low < high).
+Proof.
+  intros size w progs s Hsz Hp R. cbn zeta.
+  destruct (reachable_bireach size progs s R) as (x & IR & <-).
+  pose proof (bireach_blinv w size progs x Hsz Hp IR) as L.
+  pose proof (l_ring _ _ _ _ L) as RI.
+  pose proof (r_ord _ _ _ _ _ _ _ _ RI) as Ord.
+  change (cell (mem (bbase x)) c_high) with (Hi (mem (bbase x))).
+  change (cell (mem (bbase x)) c_low) with (Lo (mem (bbase x))).
+  assert (A : Hi (mem (bbase x)) <= Lo (mem (bbase x)) ->
+              cell (mem (bbase x)) (c_buf (bidx size (Lo (mem (bbase x))))) = 0).
+  { intros H. apply (r_free _ _ _ _ _ _ _ _ RI (Lo (mem (bbase x)))). lia. }
+  split; [exact A|]. intros N.
+  destruct (Z_lt_le_dec (Lo (mem (bbase x))) (Hi (mem (bbase x)))) as [|Hle]; [assumption|].
+  exfalso. apply N. apply A. exact Hle.
+Qed.
+
+(* the receiver's stale reads: only thread w is ever in the receive loop; the high it
+   loaded is at most the current high, and the low it loaded IS the current low *)
+Lemma bchan_receiver_lo :
+  forall (size : Z) (w : nat) (progs : list (list cop)) (s : st),
+  0 < size -> bchan_progs_ok w progs -> reachable M (init size progs) s ->
+  let high := cell (mem s) c_high in
+  let low := cell (mem s) c_low in
+  (forall t blk hi lo p k,
+     stk s t = [CRead (c_buf (bidx size lo)); FC (KQSlot blk hi lo p k)] ->
+     t = w /\ hi <= high /\ lo = low) /\
+  (forall t blk hi p k,
+     stk s t = [CLoadC c_low 2; FC (KQLow blk hi p k)] ->
+     t = w /\ hi <= high).
+Proof.
+  intros size w progs s Hsz Hp R. cbn zeta.
+  destruct (reachable_bireach size progs s R) as (x & IR & <-).
+  pose proof (bireach_blinv w size progs x Hsz Hp IR) as L.
+  pose proof (l_ring _ _ _ _ L) as RI.
+  change (cell (mem (bbase x)) c_high) with (Hi (mem (bbase x))).
+  change (cell (mem (bbase x)) c_low) with (Lo (mem (bbase x))).
+  split.
+  - intros t blk hi lo p k Hst.
+    pose proof (r_loc _ _ _ _ _ _ _ _ RI t) as LT. unfold phsof at 2 in LT. rewrite Hst in LT.
+    cbn in LT. exact LT.
+  - intros t blk hi p k Hst.
+    pose proof (r_loc _ _ _ _ _ _ _ _ RI t) as LT. unfold phsof at 2 in LT. rewrite Hst in LT.
+    cbn in LT. exact LT.
+Qed.
+
+Print Assumptions bchan_empty_slot_zero.
+Print Assumptions bchan_receiver_lo.
